@@ -267,22 +267,294 @@ theorem argminGo_map {f : α → α} (hf : StrictMono f) (best : α) (bi i : Nat
     · rw [if_pos h, if_pos (hf h)]; exact ih _ _ _
     · rw [if_neg h, if_neg (fun h' => h (hf.lt_iff_lt.mp h'))]; exact ih _ _ _
 
+/-! ### the reductions are the extrema -/
+
+theorem maxL_ge_init (a : α) (l : List α) : a ≤ maxL a l := by
+  induction l generalizing a with
+  | nil => exact le_refl _
+  | cons x l ih =>
+    simp only [maxL, List.foldl_cons]
+    by_cases h : a < x
+    · rw [if_pos h]; exact le_trans h.le (ih x)
+    · rw [if_neg h]; exact ih a
+
+/-- `maxL a l` is an element of `a :: l` and bounds all of them -/
+theorem maxL_spec (a : α) (l : List α) :
+    maxL a l ∈ a :: l ∧ ∀ x ∈ a :: l, x ≤ maxL a l := by
+  induction l generalizing a with
+  | nil => exact ⟨List.mem_cons_self, fun x hx => by simp at hx; exact hx.le⟩
+  | cons y l ih =>
+    simp only [maxL, List.foldl_cons]
+    by_cases h : a < y
+    · rw [if_pos h]
+      obtain ⟨hm, hb⟩ := ih y
+      refine ⟨List.mem_cons_of_mem _ hm, ?_⟩
+      intro x hx
+      rcases List.mem_cons.mp hx with rfl | hx
+      · exact le_trans h.le (hb y List.mem_cons_self)
+      · exact hb x hx
+    · rw [if_neg h]
+      obtain ⟨hm, hb⟩ := ih a
+      refine ⟨?_, ?_⟩
+      · rcases List.mem_cons.mp hm with h1 | h1
+        · show _ ∈ _; rw [show List.foldl _ a l = a from h1]; exact List.mem_cons_self
+        · exact List.mem_cons_of_mem _ (List.mem_cons_of_mem _ h1)
+      · intro x hx
+        rcases List.mem_cons.mp hx with rfl | hx
+        · exact hb _ List.mem_cons_self
+        · rcases List.mem_cons.mp hx with rfl | hx
+          · exact le_trans (not_lt.mp h) (hb a List.mem_cons_self)
+          · exact hb x (List.mem_cons_of_mem _ hx)
+
+theorem minL_spec (a : α) (l : List α) :
+    minL a l ∈ a :: l ∧ ∀ x ∈ a :: l, minL a l ≤ x := by
+  induction l generalizing a with
+  | nil => exact ⟨List.mem_cons_self, fun x hx => by simp at hx; exact hx.ge⟩
+  | cons y l ih =>
+    simp only [minL, List.foldl_cons]
+    by_cases h : y < a
+    · rw [if_pos h]
+      obtain ⟨hm, hb⟩ := ih y
+      refine ⟨List.mem_cons_of_mem _ hm, ?_⟩
+      intro x hx
+      rcases List.mem_cons.mp hx with rfl | hx
+      · exact le_trans (hb y List.mem_cons_self) h.le
+      · exact hb x hx
+    · rw [if_neg h]
+      obtain ⟨hm, hb⟩ := ih a
+      refine ⟨?_, ?_⟩
+      · rcases List.mem_cons.mp hm with h1 | h1
+        · show _ ∈ _; rw [show List.foldl _ a l = a from h1]; exact List.mem_cons_self
+        · exact List.mem_cons_of_mem _ (List.mem_cons_of_mem _ h1)
+      · intro x hx
+        rcases List.mem_cons.mp hx with rfl | hx
+        · exact hb _ List.mem_cons_self
+        · rcases List.mem_cons.mp hx with rfl | hx
+          · exact le_trans (hb a List.mem_cons_self) (not_lt.mp h)
+          · exact hb x (List.mem_cons_of_mem _ hx)
+
+/-! ### constant columns -/
+
+theorem sumL_const {l : List α} {a : α} (hc : ∀ x ∈ l, x = a) : sumL l = (l.length : α) * a := by
+  induction l with
+  | nil => simp [sumL]
+  | cons x l ih =>
+    have hx : x = a := hc x List.mem_cons_self
+    have := ih (fun y hy => hc y (List.mem_cons_of_mem _ hy))
+    simp only [sumL, this, hx, List.length_cons, Nat.cast_succ]
+    ring
+
+theorem meanL_const {l : List α} {a : α} (h : l ≠ []) (hc : ∀ x ∈ l, x = a) : meanL l = a := by
+  unfold meanL
+  rw [sumL_const hc]
+  field_simp [length_cast_ne_zero (α := α) h]
+
+theorem varL_const {l : List α} {a : α} (h : l ≠ []) (hc : ∀ x ∈ l, x = a) : varL l = 0 := by
+  unfold varL
+  rw [meanL_const h hc]
+  have hz : ∀ y ∈ l.map (fun x => (x - a) * (x - a)), y = 0 := by
+    intro y hy
+    obtain ⟨x, hx, rfl⟩ := List.mem_map.mp hy
+    rw [hc x hx]; ring
+  have hne : l.map (fun x => (x - a) * (x - a)) ≠ [] := by simpa using h
+  exact meanL_const hne hz
+
+/-! ### variance is a mean of squares -/
+
+theorem sumL_nonneg {l : List α} (h : ∀ x ∈ l, 0 ≤ x) : 0 ≤ sumL l := by
+  induction l with
+  | nil => simp [sumL]
+  | cons a l ih =>
+    simp only [sumL]
+    exact add_nonneg (h a List.mem_cons_self) (ih (fun x hx => h x (List.mem_cons_of_mem _ hx)))
+
+theorem sumL_eq_zero {l : List α} (h : ∀ x ∈ l, 0 ≤ x) (h0 : sumL l = 0) : ∀ x ∈ l, x = 0 := by
+  induction l with
+  | nil => intro x hx; cases hx
+  | cons a l ih =>
+    simp only [sumL] at h0
+    have ha := h a List.mem_cons_self
+    have hl := sumL_nonneg (fun x hx => h x (List.mem_cons_of_mem _ hx))
+    have ha0 : a = 0 := by linarith
+    have hl0 : sumL l = 0 := by linarith
+    intro x hx
+    rcases List.mem_cons.mp hx with rfl | hx
+    · exact ha0
+    · exact ih (fun y hy => h y (List.mem_cons_of_mem _ hy)) hl0 x hx
+
+theorem varL_nonneg (l : List α) : 0 ≤ varL l := by
+  unfold varL meanL
+  apply div_nonneg
+  · apply sumL_nonneg
+    intro y hy
+    obtain ⟨x, _, rfl⟩ := List.mem_map.mp hy
+    exact mul_self_nonneg _
+  · exact Nat.cast_nonneg _
+
+/-- variance 0 ⇒ every value equals the mean -/
+theorem eq_mean_of_varL_eq_zero {l : List α} (h : l ≠ []) (hv : varL l = 0) : ∀ x ∈ l, x = meanL l := by
+  unfold varL at hv
+  have hn : ((List.map (fun x => (x - meanL l) * (x - meanL l)) l).length : α) ≠ 0 := by
+    rw [List.length_map]; exact length_cast_ne_zero h
+  have hs : sumL (List.map (fun x => (x - meanL l) * (x - meanL l)) l) = 0 := by
+    unfold meanL at hv
+    rcases div_eq_zero_iff.mp hv with h1 | h1
+    · exact h1
+    · exact absurd h1 hn
+  have hz := sumL_eq_zero (l := List.map (fun x => (x - meanL l) * (x - meanL l)) l)
+    (by intro y hy; obtain ⟨x, _, rfl⟩ := List.mem_map.mp hy; exact mul_self_nonneg _) hs
+  intro x hx
+  have := hz _ (List.mem_map.mpr ⟨x, hx, rfl⟩)
+  have := mul_self_eq_zero.mp this
+  linarith
+
+/-- a list whose greatest and least element coincide is constant -/
+theorem const_of_max_eq_min (a : α) (l : List α) (h : maxL a l = minL a l) : ∀ x ∈ a :: l, x = minL a l := by
+  intro x hx
+  have h1 := (maxL_spec a l).2 x hx
+  have h2 := (minL_spec a l).2 x hx
+  rw [h] at h1
+  exact le_antisymm h1 h2
+
+theorem max_eq_min_of_const (a : α) (l : List α) (v : α) (h : ∀ x ∈ a :: l, x = v) : maxL a l = minL a l := by
+  have h1 := h _ (maxL_spec a l).1
+  have h2 := h _ (minL_spec a l).1
+  rw [h1, h2]
+
 /-! ### `from_numpy` on one column in closed form -/
 
 theorem present_isEmpty_iff (c : Col α) : (present c).isEmpty = true ↔ present c = [] :=
   List.isEmpty_iff
 
+/-- greatest = least  ⇔  variance 0  (⇔ all values equal) -/
+theorem min_eq_max_iff_varL_eq_zero (a : α) (l : List α) : minL a l = maxL a l ↔ varL (a :: l) = 0 := by
+  constructor
+  · intro h
+    exact varL_const (List.cons_ne_nil _ _) (const_of_max_eq_min a l h.symm)
+  · intro h
+    exact (max_eq_min_of_const a l _ (eq_mean_of_varL_eq_zero (List.cons_ne_nil _ _) h)).symm
+
+/-- the scale `from_numpy` stores for a trait whose observed values are `l` (closed form of `fitScale`):
+    1 for a constant trait — WHATEVER `sq` is, this is the `const` guard of the fix of D26 —, else the
+    deviation (1 if that evaluates to 0) -/
+def scaleOf (sq : α → α) (l : List α) : α := if varL l = 0 then 1 else guardScale (sq (varL l))
+
+theorem scaleOf_ne_zero (sq : α → α) (l : List α) : scaleOf sq l ≠ 0 := by
+  unfold scaleOf
+  split
+  · exact one_ne_zero
+  · exact guardScale_ne_zero _
+
+theorem scaleOf_pos {sq : α → α} (hsq : ∀ x, 0 ≤ sq x) (l : List α) : 0 < scaleOf sq l := by
+  unfold scaleOf
+  split
+  · exact one_pos
+  · exact guardScale_pos (hsq _)
+
+theorem scaleOf_of_var_zero (sq : α → α) {l : List α} (h : varL l = 0) : scaleOf sq l = 1 := by
+  unfold scaleOf; rw [if_pos h]
+
+theorem scaleOf_of_var_ne (sq : α → α) {l : List α} (h : varL l ≠ 0) :
+    scaleOf sq l = guardScale (sq (varL l)) := by
+  unfold scaleOf; rw [if_neg h]
+
+theorem scaleOf_const (sq : α → α) {l : List α} {a : α} (h : l ≠ []) (hc : ∀ x ∈ l, x = a) : scaleOf sq l = 1 :=
+  scaleOf_of_var_zero sq (varL_const h hc)
+
+/-- with `sq 0 = 0` the guard of the fix is subsumed by `scale[scale == 0.0] = 1.0` -/
+theorem scaleOf_eq_guardScale {sq : α → α} (h0 : sq 0 = 0) (l : List α) :
+    scaleOf sq l = guardScale (sq (varL l)) := by
+  unfold scaleOf
+  split
+  · rename_i h; rw [h, h0, guardScale_zero]
+  · rfl
+
+theorem isConstCol_of_nil {c : Col α} (h : present c = []) : isConstCol c = false := by
+  unfold isConstCol fminReduce fmaxReduce
+  rw [h]; rfl
+
+theorem isConstCol_of_cons {c : Col α} {a : α} {l : List α} (h : present c = a :: l) :
+    isConstCol c = decide (varL (a :: l) = 0) := by
+  unfold isConstCol fminReduce fmaxReduce
+  rw [h]
+  simp only [oeq]
+  exact decide_eq_decide.mpr (min_eq_max_iff_varL_eq_zero a l)
+
+theorem fitLoc_of_nil {c : Col α} (h : present c = []) : fitLoc c = none := by
+  unfold fitLoc nanmean
+  rw [isConstCol_of_nil h, h]; rfl
+
+theorem fitScale_of_nil (sq : α → α) {c : Col α} (h : present c = []) : fitScale sq c = none := by
+  unfold fitScale nanstd nanvar
+  rw [isConstCol_of_nil h, h]; rfl
+
+/-- the stored location is the mean of the observed values (for a constant trait: the constant itself,
+    read off the data, which IS its mean) -/
+theorem fitLoc_of_ne {c : Col α} (h : present c ≠ []) : fitLoc c = some (meanL (present c)) := by
+  cases hp : present c with
+  | nil => exact absurd hp h
+  | cons a l =>
+    unfold fitLoc
+    rw [isConstCol_of_cons hp]
+    by_cases hv : varL (a :: l) = 0
+    · simp only [hv, decide_true, if_true]
+      unfold fminReduce
+      rw [hp]
+      have hall := const_of_max_eq_min a l ((min_eq_max_iff_varL_eq_zero a l).mpr hv).symm
+      rw [meanL_const (List.cons_ne_nil _ _) hall]
+    · simp only [hv, decide_false, Bool.false_eq_true, if_false]
+      unfold nanmean
+      rw [hp]; rfl
+
+theorem fitScale_of_ne (sq : α → α) {c : Col α} (h : present c ≠ []) :
+    fitScale sq c = some (scaleOf sq (present c)) := by
+  cases hp : present c with
+  | nil => exact absurd hp h
+  | cons a l =>
+    unfold fitScale
+    rw [isConstCol_of_cons hp]
+    by_cases hv : varL (a :: l) = 0
+    · simp only [hv, decide_true, if_true]
+      rw [scaleOf_of_var_zero sq hv]
+    · simp only [hv, decide_false, Bool.false_eq_true, if_false]
+      unfold nanstd nanvar
+      rw [hp, scaleOf_of_var_ne sq hv]; rfl
+
 /-- empty or all-NaN column: location, scale and every stored value are NaN -/
 theorem fromNumpyCol_of_nil (sq : α → α) {c : Col α} (h : present c = []) :
     fromNumpyCol sq c = { mat := c, loc := none, scale := none } := by
-  unfold fromNumpyCol nanstd nanvar nanmean
-  simp only [h, List.isEmpty_nil, if_true, Option.map_none]
+  unfold fromNumpyCol
+  rw [fitLoc_of_nil h, fitScale_of_nil sq h]
+  dsimp only
   congr 1
   exact map_none_of_present_nil h _ (standardise_loc_none _ _)
 
 /-- a column with at least one value -/
 theorem fromNumpyCol_of_ne (sq : α → α) {c : Col α} (h : present c ≠ []) :
     fromNumpyCol sq c =
+      { mat := c.map (standardise (some (meanL (present c))) (some (scaleOf sq (present c)))),
+        loc := some (meanL (present c)),
+        scale := some (scaleOf sq (present c)) } := by
+  unfold fromNumpyCol
+  rw [fitLoc_of_ne h, fitScale_of_ne sq h]
+
+/-- the stored values of the present entries -/
+theorem present_mat_fromNumpyCol (sq : α → α) {c : Col α} (h : present c ≠ []) :
+    present (fromNumpyCol sq c).mat =
+      (present c).map (stdFn (meanL (present c)) (scaleOf sq (present c))) := by
+  rw [fromNumpyCol_of_ne sq h]
+  exact present_map _ _ (standardise_none _ _) (standardise_some _ _)
+
+/-- the code before the fix of D26, in closed form -/
+theorem fromNumpyColPrerepair_of_nil (sq : α → α) {c : Col α} (h : present c = []) :
+    fromNumpyColPrerepair sq c = { mat := c, loc := none, scale := none } := by
+  unfold fromNumpyColPrerepair nanstd nanvar nanmean
+  simp only [h, List.isEmpty_nil, if_true, Option.map_none]
+  congr 1
+  exact map_none_of_present_nil h _ (standardise_loc_none _ _)
+
+theorem fromNumpyColPrerepair_of_ne (sq : α → α) {c : Col α} (h : present c ≠ []) :
+    fromNumpyColPrerepair sq c =
       { mat := c.map (standardise (some (meanL (present c))) (some (guardScale (sq (varL (present c)))))),
         loc := some (meanL (present c)),
         scale := some (guardScale (sq (varL (present c)))) } := by
@@ -290,15 +562,8 @@ theorem fromNumpyCol_of_ne (sq : α → α) {c : Col α} (h : present c ≠ []) 
     cases hp : present c with
     | nil => exact absurd hp h
     | cons a l => rfl
-  unfold fromNumpyCol nanstd nanvar nanmean
+  unfold fromNumpyColPrerepair nanstd nanvar nanmean
   simp only [he, Bool.false_eq_true, if_false, Option.map_some]
-
-/-- the stored values of the present entries -/
-theorem present_mat_fromNumpyCol (sq : α → α) {c : Col α} (h : present c ≠ []) :
-    present (fromNumpyCol sq c).mat =
-      (present c).map (stdFn (meanL (present c)) (guardScale (sq (varL (present c))))) := by
-  rw [fromNumpyCol_of_ne sq h]
-  exact present_map _ _ (standardise_none _ _) (standardise_some _ _)
 
 end field
 end BVMat
